@@ -374,6 +374,150 @@ Definition msite (roots : list bytes) (origin : bytes) (pos : nat) (rootrel scop
      s_pages := gen_default_index_pages; s_prefix := [SLASH]; s_internal := gen_c02_minternal;
      s_browse := match scope with [] => [] | _ => [{| b_scope := scope; b_types := types |}] end |}.
 
+
+(* ---- http.ServeContent: conditional requests and byte ranges (go1.23 net/http fs.go) --------
+   A file answer of serve_file ends in http.ServeContent(w, r, name, modtime, f) with the ETag header
+   set from the file that is sent.  checkPreconditions, checkIfRange, parseRange, sumRangesSize and
+   the choice between 200 / 206 single / 206 multipart / 304 / 416 are modelled; what the validators
+   compare (entity tags, dates) is abstracted to the outcome of the comparison:
+     c_inm  If-None-Match:     0 absent, 1 "*" or a tag that weakly matches the ETag, 2 no tag matches
+     c_ims  If-Modified-Since: 0 absent or not a date, 1 the file was NOT modified after it, 2 it was
+     c_ifr  If-Range:          0 absent, 1 the ETag (strong comparison) or exactly the mod time, 2 other
+   A range is (start, length) in bytes of the file that is sent. *)
+Record cond := mkcond { c_range : bytes; c_inm : N; c_ims : N; c_ifr : N }.
+Definition no_cond : cond := mkcond [] 0 0 0.
+
+Fixpoint cut_at (c : N) (s : bytes) : option (bytes * bytes) :=          (* strings.Cut *)
+  match s with
+  | [] => None
+  | x :: r => if x =? c then Some ([], r)
+              else match cut_at c r with Some (a, b) => Some (x :: a, b) | None => None end
+  end.
+
+(* one byte-range-spec: None = "invalid range"; Some None = begins at or after the end (skipped,
+   noOverlap); ParseInt(s, 10, 64) is [atoi] *)
+Definition parse_one (ra : bytes) (size : N) : option (option (N * N)) :=
+  match cut_at 45 ra with
+  | None => None
+  | Some (st0, en0) =>
+    let st := trim_spaces st0 in
+    let en := trim_spaces en0 in
+    match st with
+    | [] =>                                                  (* suffix-length *)
+        match en with
+        | [] => None
+        | c :: _ => if c =? 45 then None else
+            match atoi en with
+            | Some z => if (z <? 0)%Z then None
+                        else let i := N.min (Z.to_N z) size in Some (Some (size - i, i))
+            | None => None
+            end
+        end
+    | _ =>
+        match atoi st with
+        | None => None
+        | Some z =>
+            if (z <? 0)%Z then None else
+            let i := Z.to_N z in
+            if size <=? i then Some None else
+            match en with
+            | [] => Some (Some (i, size - i))
+            | _ => match atoi en with
+                   | None => None
+                   | Some e => if (e <? Z.of_N i)%Z then None
+                               else let j := if size <=? Z.to_N e then size - 1 else Z.to_N e in
+                                    Some (Some (i, j - i + 1))
+                   end
+            end
+        end
+    end
+  end.
+
+Inductive rparse := RErr | RNoOverlap | RRanges (rs : list (N * N)).
+
+Fixpoint parse_specs (specs : list bytes) (size : N) (acc : list (N * N)) (noov : bool) : rparse :=
+  match specs with
+  | [] => match acc with
+          | [] => if noov then RNoOverlap else RRanges []
+          | _ => RRanges (rev acc)
+          end
+  | s :: r =>
+      match trim_spaces s with
+      | [] => parse_specs r size acc noov
+      | ra => match parse_one ra size with
+              | None => RErr
+              | Some None => parse_specs r size acc true
+              | Some (Some x) => parse_specs r size (x :: acc) noov
+              end
+      end
+  end.
+
+Definition bytes_eq_prefix : bytes := [98; 121; 116; 101; 115; 61].       (* "bytes=" *)
+Definition parse_range (s : bytes) (size : N) : rparse :=
+  match s with
+  | [] => RRanges []
+  | _ => if has_prefix s bytes_eq_prefix then parse_specs (split 44 (skipn 6 s)) size [] false else RErr
+  end.
+
+Definition sum_lens (rs : list (N * N)) : N := fold_right (fun r a => snd r + a) 0 rs.
+
+Inductive canswer :=
+| CNotModified                    (* 304, no body *)
+| CUnsat                          (* 416, an error text, no content *)
+| CFull                           (* 200, the whole file *)
+| CParts (rs : list (N * N)).     (* 206: one range = the slice itself; several = multipart/byteranges, in this order *)
+
+(* serveContent for GET / HEAD (serve_file lets nothing else through), no If-Match / If-Unmodified-Since *)
+Definition not_modified (q : cond) : bool :=
+  match c_inm q with
+  | 0 => c_ims q =? 1            (* If-Modified-Since is consulted only without If-None-Match *)
+  | 1 => true
+  | _ => false
+  end.
+Definition range_req (q : cond) : bytes := if c_ifr q =? 2 then [] else c_range q.
+Definition serve_content (size : N) (q : cond) : canswer :=
+  if not_modified q then CNotModified else
+  match parse_range (range_req q) size with
+  | RErr => CUnsat
+  | RNoOverlap => if size =? 0 then CFull else CUnsat
+  | RRanges rs => if size <? sum_lens rs then CFull       (* "probably an attack": the Range header is ignored *)
+                  else match rs with [] => CFull | _ => CParts rs end
+  end.
+
+(* the bytes sent *)
+Definition piece (cnt : bytes) (r : N * N) : bytes := firstn (N.to_nat (snd r)) (skipn (N.to_nat (fst r)) cnt).
+Definition content_body (cnt : bytes) (a : canswer) : list bytes :=
+  match a with
+  | CFull => [cnt]
+  | CParts rs => map (piece cnt) rs
+  | CNotModified | CUnsat => []
+  end.
+Definition blen (b : bytes) : N := N.of_nat (length b).
+
+(* a site answering a request that carries Range / conditional headers: only file answers look at them *)
+Inductive answer := AOther (o : outcome) | AContent (n : node) (enc : option bytes) (a : canswer).
+Definition respond (size_of : N -> N) (s : site) (r : request) (q : cond) : answer :=
+  match handle s r with
+  | Serve n enc => AContent n enc (serve_content (size_of (n_id n)) q)
+  | o => AOther o
+  end.
+(* the file content an answer carries ([content id]: the bytes of the file of that identity) *)
+Definition answer_body (content : N -> bytes) (r : request) (a : answer) : list bytes :=
+  match a with
+  | AContent n _ ca => if q_meth r =? 1 then [] else content_body (content (n_id n)) ca
+  | AOther _ => []
+  end.
+Definition answer_status (a : answer) : N :=
+  match a with
+  | AContent _ _ CNotModified => 304
+  | AContent _ _ CUnsat => 416
+  | AContent _ _ CFull => 200
+  | AContent _ _ (CParts _) => 206
+  | AOther (Status c) => c
+  | AOther (Redirect c _) => c
+  | AOther _ => 200
+  end.
+
 (* ---- observations ---- *)
 (* kind: 0 plain response, 1 directory listing, 2 archive.  ids: identities of the fixture files
    whose token occurs in the fully decoded / un-archived body (1 = a file OUTSIDE the root,
@@ -395,7 +539,15 @@ Inductive case :=
 (* a request to the site config at position [pos] of a multi-site Casketfile loaded from
    [origin]; [base]: where [mtree_fs] is on disk; [rootrel]: that site's root relative to [base] *)
 | CMulti (base : bytes) (roots : list bytes) (origin : bytes) (pos : nat) (rootrel scope : bytes)
-         (types : list bytes) (r : request) (o : obs).
+         (types : list bytes) (r : request) (o : obs)
+(* a request with Range / conditional headers that got a FILE answer (ETag header, or 206 / 304 / 416).
+   [sizes]: identity -> size of every regular file of the tree, as stat reports it.  [o]: the ordinary
+   observation (o_ids: token scan of the body).  [parts]: the body pieces of a 200 / 206 answer in
+   order — (start, length, ids): start and total from Content-Range (0 and the body length on 200),
+   length = the number of bytes of the piece, ids = the identities of the files (of all fixture
+   trees; 1 = outside the root; [2] if none) whose size is the stated total and whose bytes
+   [start, start+length) are exactly the piece *)
+| CRange (s : site) (r : request) (q : cond) (sizes : list (N * N)) (o : obs) (parts : list (N * N * list N)).
 
 Definition mem_b (l : list bytes) (x : bytes) : bool := existsb (beq x) l.
 Definition seteq_N (a b : list N) : bool := forallb (mem_N b) a && forallb (mem_N a) b.
@@ -591,6 +743,54 @@ Definition origin_clause (base origin rootrel : bytes) (fs : fsys) (r : request)
     end
   end.
 
+(* ---- range / conditional cases ---- *)
+Definition size_in (sizes : list (N * N)) (id : N) : N :=
+  match find (fun p => fst p =? id) sizes with Some p => snd p | None => 0 end.
+Fixpoint dedup_N (l : list N) : list N :=
+  match l with [] => [] | x :: r => if mem_N r x then dedup_N r else x :: dedup_N r end.
+Definition part_ids (parts : list (N * N * list N)) : list N := flat_map snd parts.
+(* the observation the ordinary property is evaluated on: the identities found by the token scan
+   together with the identities of the pieces *)
+Definition range_obs (o : obs) (parts : list (N * N * list N)) : obs :=
+  mkobs (o_status o) (o_loc o) (o_ce o) 0 (dedup_N (o_ids o ++ part_ids parts)) [] (o_hids o) [].
+
+Definition agree_range (s : site) (r : request) (q : cond) (sizes : list (N * N)) (o : obs)
+           (parts : list (N * N * list N)) : bool :=
+  let head := q_meth r =? 1 in
+  match respond (size_in sizes) s r q with
+  | AOther _ => false
+  | AContent n enc ca =>
+      let size := size_in sizes (n_id n) in
+      let ce_ok := beq (o_ce o) (match enc with Some e => e | None => [] end) in
+      let sent (rs : list (N * N)) :=
+        if head then match parts with [] => true | _ => false end
+        else list_beq (fun a b => (fst a =? fst b) && (snd a =? snd b)) (map fst parts) rs &&
+             forallb (fun p => seteq_N (snd p) [n_id n]) parts in
+      beq (o_loc o) [] &&
+      match ca with
+      | CNotModified => (o_status o =? 304) && seteq_N (o_ids o) [] && sent [] && mem_N (o_hids o) (n_id n)
+      | CUnsat => (o_status o =? 416) && seteq_N (o_ids o) [] && sent []
+      | CFull => (o_status o =? 200) && ce_ok && sent [(0, size)] && mem_N (o_hids o) (n_id n)
+      | CParts rs => (o_status o =? 206) && ce_ok && sent rs && mem_N (o_hids o) (n_id n)
+      end
+  end.
+
+(* the property on a range / conditional answer, WITHOUT the model of ServeContent: everything the
+   body consists of (tokens, pieces) and everything the headers describe is ONE regular, visible
+   file at a permitted place (the ordinary [spec_ok] on [range_obs]); 200 and 206 answers to GET have
+   a body, all of it from that file, every piece inside it; any other status carries no content *)
+Definition spec_range (s : site) (r : request) (sizes : list (N * N)) (o : obs)
+           (parts : list (N * N * list N)) : bool :=
+  let ro := range_obs o parts in
+  spec_ok s r ro &&
+  if (o_status o =? 200) || (o_status o =? 206) then
+    (if q_meth r =? 0
+     then (N.of_nat (length (o_ids ro)) =? 1) && forallb (mem_N (o_hids o)) (o_ids ro) &&
+          negb (match parts with [] => true | _ => false end)
+     else match parts with [] => true | _ => false end) &&
+    forallb (fun p => match p with (st, l, ids) => forallb (fun id => st + l <=? size_in sizes id) ids end) parts
+  else seteq_N (o_ids ro) [] && match parts with [] => true | _ => false end.
+
 Definition judge (c : case) : N :=
   match c with
   | CSkip => 0
@@ -600,4 +800,5 @@ Definition judge (c : case) : N :=
       let s := msite roots origin pos rootrel scope types in
       verdict (agree s r o && beq (abs_path (nth pos roots [])) (abs_of base rootrel))
               (spec_ok s r o && origin_clause base origin rootrel (s_fs s) r o)
+  | CRange s r q sizes o parts => verdict (agree_range s r q sizes o parts) (spec_range s r sizes o parts)
   end.
